@@ -2,6 +2,7 @@ use arc_swap::ArcSwap;
 use async_trait::async_trait;
 use bb8::{ManageConnection, Pool, PooledConnection, QueueStrategy};
 use chrono::naive::NaiveDateTime;
+use futures::FutureExt;
 use log::{debug, error, info, warn};
 use lru::LruCache;
 use once_cell::sync::Lazy;
@@ -1251,7 +1252,10 @@ impl ManageConnection for ServerPool {
 
         // Connect to the PostgreSQL server. The attempt holds a slot of the pool until it ends:
         // a server that accepts the connection and then says nothing must not keep it for ever.
-        let startup = Server::startup(
+        //
+        // The pool also keeps that slot until this call returns: a panic in the code that parses what
+        // the server sends would take the slot with it, so it ends the attempt like any other failure.
+        let startup = std::panic::AssertUnwindSafe(Server::startup(
             &self.address,
             &self.user,
             &self.database,
@@ -1261,7 +1265,8 @@ impl ManageConnection for ServerPool {
             self.cleanup_connections,
             self.log_client_parameter_status_changes,
             self.prepared_statement_cache_size,
-        );
+        ))
+        .catch_unwind();
 
         match tokio::time::timeout(
             std::time::Duration::from_millis(self.connect_timeout),
@@ -1269,9 +1274,15 @@ impl ManageConnection for ServerPool {
         )
         .await
         .unwrap_or_else(|_| {
-            Err(Error::SocketError(format!(
+            Ok(Err(Error::SocketError(format!(
                 "server {:?} did not complete the startup within {} ms",
                 self.address, self.connect_timeout
+            ))))
+        })
+        .unwrap_or_else(|_| {
+            Err(Error::SocketError(format!(
+                "the startup of a connection to server {:?} panicked",
+                self.address
             )))
         }) {
             Ok(mut conn) => {
